@@ -2,7 +2,7 @@
 (* Concrete vocabulary of C08 shared by the exhaustive pools (MCNegotiate), the behaviour
    generator (NegotiateGen) and - through the generated JSON - the Go harness.
 
-   A case is a PICK: a tuple of 19 indices, one per factor.  CfgOf(p) / OpenOf(p) build the local
+   A case is a PICK: a tuple of 20 indices, one per factor.  CfgOf(p) / OpenOf(p) build the local
    neighbour configuration and the OPEN the simulated neighbour sends.
      1 las        AS of the speaker: 2-octet / 4-octet
      2 peermode   configured peer-as: the neighbour's real AS / none / another AS
@@ -22,6 +22,10 @@
      18 order     capability order forward / reversed
      19 bulk      the speaker originates 1100 further IPv4 routes with identical attributes (so
                   that its packer fills UPDATEs up to the size limit in force) / only one per family
+     20 asform    how the speaker's AS towards this neighbour is configured: as the global AS / as the
+                  neighbour's local-as while the GLOBAL AS is another one of the other width (2-octet
+                  local-as under a 4-octet global AS and the reverse): `las` stays the AS of the speaker
+                  on this session, cfg.gas is the global AS (0 = same)
    AS numbers stay below 2^31 (TLC integers); 1000100 etc. are genuine 4-octet AS numbers. *)
 EXTENDS Integers, Sequences, FiniteSets
 
@@ -40,10 +44,11 @@ FRGr   == <<"no", "gr", "llgr">>
 FLayout == <<"one", "each", "two">>
 FOrder == <<"fwd", "rev">>
 FBulk  == <<TRUE, FALSE>>
+FAsForm == <<"global", "nbr">>
 
 FactorSizes == <<Len(FLas), Len(FPeer), Len(FLMode), Len(FLMode), Len(FLMode), Len(FLHold), Len(FLKa),
                  Len(FLGr), Len(FRAs), Len(FRHold), Len(FRShape), Len(FRShape), Len(FRShape),
-                 Len(FROther), Len(FRExt), Len(FRGr), Len(FLayout), Len(FOrder), Len(FBulk)>>
+                 Len(FROther), Len(FRExt), Len(FRGr), Len(FLayout), Len(FOrder), Len(FBulk), Len(FAsForm)>>
 NFactors == Len(FactorSizes)
 
 FamNames == <<"v4", "v6", "vpn4">>
@@ -134,6 +139,7 @@ CfgOf(p) ==
       ka |-> IF hold = 65535 THEN 0 ELSE FLKa[p[7]],
       gr |-> CASE FLGr[p[8]] = "off" -> "off" [] FLGr[p[8]] = "llgr" -> "llgr" [] OTHER -> "on",
       grn |-> FLGr[p[8]] = "onN",
-      bulk |-> FBulk[p[19]]]
+      bulk |-> FBulk[p[19]],
+      gas |-> IF FAsForm[p[20]] = "global" THEN 0 ELSE IF FLas[p[1]] > 65535 THEN 65010 ELSE 1000200]
 
 =============================================================================
